@@ -6,7 +6,7 @@
    is_von_name = the local function of Person._parse_string;  jr_part, first_part, token_case,
    spec_is_von: Spec/Names.v. *)
 From Pybtex Require Import Base.Prelude Base.PyChar Base.PyStr Model.BibtexStr Model.Names Spec.Names
-  Proofs.NamesSplit Proofs.Names Proofs.NamesCase Proofs.NamesAtomic Proofs.NamesOk Proofs.NamesUnique Proofs.NamesLevel0.
+  Proofs.NamesSplit Proofs.Names Proofs.NamesCase Proofs.NamesAtomic Proofs.NamesOk Proofs.NamesUnique Proofs.NamesLevel0 Proofs.NamesTok.
 
 (* parsing never raises a foreign exception and never diverges, for EVERY string and every
    explicit part argument (the only error left is BibTeXError 'too many nested braces') *)
@@ -121,6 +121,23 @@ Theorem level0_whitespace_splits : forall s ts, closed s -> split_tex_space s = 
 Proof. exact level0_whitespace_splits_pf. Qed.
 Print Assumptions level0_whitespace_splits.
 
+(* split_tex_string(s) IS the tokenizer of the property text (Spec/Names.v spec_tokens: one pass with the
+   brace level; at level 0 a whitespace character, an unescaped tie and the backslash of a control
+   space end the token and are dropped; nothing else splits) for every string whose braces are all closed *)
+Theorem tokenizer_spec : forall s, closed s -> split_tex_space s = Ok (spec_tokens s).
+Proof. exact tokenizer_spec_pf. Qed.
+Print Assumptions tokenizer_spec.
+
+(* hence the name parts are the specification's tokens, form by form *)
+Theorem person_tokens_spec : forall s parts p rep, closed s ->
+  split_tex_comma (strip s) = Ok parts -> person_of_string s = Ok (p, rep) ->
+  (length parts <= 1 -> p_first p ++ p_middle p ++ p_prelast p ++ p_last p = spec_tokens (strip s)) /\
+  (2 <= length parts ->
+     p_prelast p ++ p_last p = spec_tokens (nth 0 parts []) /\ p_lineage p = spec_tokens (jr_part parts) /\
+     p_first p ++ p_middle p = spec_tokens (first_part parts)).
+Proof. exact person_tokens_spec_pf. Qed.
+Print Assumptions person_tokens_spec.
+
 (* ... and of every name part of the parsed person *)
 Theorem person_tokens_closed : forall s p rep, closed s -> person_of_string s = Ok (p, rep) ->
   Forall closed (p_first p ++ p_middle p ++ p_prelast p ++ p_last p ++ p_lineage p).
@@ -172,4 +189,10 @@ Example ex_atomic : closed (s2l "{von der} Last, {Jr, {Sr}}, A {B C}") /\
 Proof. vm_compute. auto. Qed.
 Example ex_level0 : closed (s2l "a {b c}d  e") /\ split_tex_space (s2l "a {b c}d  e") = Ok [s2l "a"; s2l "{b c}d"; s2l "e"]
   /\ l0ok (s2l "{b c}d") 0 = true /\ l0ok (s2l "b c") 0 = false.
+Proof. vm_compute. auto. Qed.
+Example ex_tokenizer : closed (s2l "a~b\ c  {d e}f\~g ~ h") /\
+  spec_tokens (s2l "a~b\ c  {d e}f\~g ~ h") = [s2l "a"; s2l "b"; s2l "c"; s2l "{d e}f\~g"; s2l "h"].
+Proof. vm_compute. auto. Qed.
+(* an unclosed group: the code splits at the inner brace, the specification does not (hypothesis needed) *)
+Example ex_tokenizer_unclosed : split_tex_space (s2l "{a{b c") = Ok [s2l "{a{b"; s2l "c"] /\ spec_tokens (s2l "{a{b c") = [s2l "{a{b c"].
 Proof. vm_compute. auto. Qed.
